@@ -213,6 +213,12 @@ where
             .entry(location)
             .or_default()
             .insert(self.version.txid, MemoryEntry::new(self.version.incarnation, value, estimate));
+            #[cfg(feature = "verif")]
+            crate::verif::point(
+                crate::verif::Point::MvBetweenPublish,
+                self.version.txid,
+                self.version.incarnation,
+            );
     }
 
     fn code_by_address(
@@ -223,6 +229,8 @@ where
         let mut result = None;
         let mut read_version = ReadVersion::Storage;
         let location = LocationAndType::Code(address);
+        #[cfg(feature = "verif")]
+        crate::verif::point(crate::verif::Point::MvLookup, self.version.txid, 2);
         // 1. read from multi-version memory
         if let Some(written_transactions) = self.mv_memory.get(&location) &&
             let Some((&txid, entry)) =
@@ -256,6 +264,8 @@ where
         let mut result = None;
         if self.beneficiary.matches(address) {
             let location = LocationAndType::Basic(address);
+            #[cfg(feature = "verif")]
+            crate::verif::point(crate::verif::Point::MvLookup, self.version.txid, 3);
             match self.beneficiary.resolve_before(self.version.txid) {
                 Ok(read) => {
                     let (account, version) = read.into_parts();
@@ -276,6 +286,8 @@ where
             let mut read_version = ReadVersion::Storage;
             let mut read_account = None;
             let location = LocationAndType::Basic(address);
+            #[cfg(feature = "verif")]
+            crate::verif::point(crate::verif::Point::MvLookup, self.version.txid, 0);
             // 1. read from multi-version memory
             if let Some(written_transactions) = self.mv_memory.get(&location) &&
                 let Some((&txid, entry)) =
@@ -314,6 +326,8 @@ where
     }
 
     fn storage(&mut self, address: Address, index: U256) -> Result<U256, Self::Error> {
+        #[cfg(feature = "verif")]
+        crate::verif::point(crate::verif::Point::MvLookup, self.version.txid, 1);
         let reset_location = LocationAndType::StorageReset(address);
         let mut reset_version = ReadVersion::Storage;
         let mut reset_txid = None;
@@ -329,6 +343,8 @@ where
         }
         self.read_set.insert(reset_location, reset_version);
 
+        #[cfg(feature = "verif")]
+        crate::verif::point(crate::verif::Point::MvLookup, self.version.txid, 4);
         let location = LocationAndType::Storage(address, index);
         let mut slot_version = ReadVersion::Storage;
         let mut slot_write = None;
